@@ -185,6 +185,7 @@ func build(s shape) (reflect.Value, []string, bool) {
 func TestCheck(t *testing.T) {
 	env := report.FromEnv()
 	rep := env.New("C20")
+	defer rep.Guard(env)
 	rep.Assumptions = []string{
 		"a typed nil struct pointer is not in the statement and is not in the alphabet",
 		"struct shapes: up to 2 (quick) / 4 (thorough) fields from 14 field kinds, with distinct or duplicate tag names, three prefixes, and ordinary / empty / one-field-invalid / one-field-with-trailing-data served values",
@@ -322,6 +323,11 @@ func TestCheck(t *testing.T) {
 	failingLookups(rep)
 	repopulate(rep)
 	taggedEmbedded(rep)
+	if env.Thorough() {
+		olderFields(rep, 7)
+	} else {
+		olderFields(rep, 5)
+	}
 	if err := rep.Write(env); err != nil {
 		t.Fatal(err)
 	}
@@ -924,4 +930,186 @@ func taggedEmbedded(rep *report.Report) {
 		}
 	}
 	sec.States, sec.Transitions = sec.Evaluations, sec.Evaluations
+}
+
+// rotSvc serves one generation of values at a time; rotate moves every secret to a new version.
+type rotSvc struct {
+	mu  sync.Mutex
+	gen int
+}
+
+func (s *rotSvc) val(name string) []byte {
+	if name == "n" {
+		return []byte(fmt.Sprint(100 + s.gen))
+	}
+	return []byte(fmt.Sprintf("%s-gen%d", name, s.gen))
+}
+
+func (s *rotSvc) Get(ctx context.Context, name string) (*api.SecretValue, error) {
+	s.mu.Lock()
+	defer s.mu.Unlock()
+	return &api.SecretValue{Value: s.val(name), Version: api.SecretVersion(s.gen)}, nil
+}
+
+func (s *rotSvc) GetIfChanged(ctx context.Context, name string, old api.SecretVersion) (*api.SecretValue, error) {
+	s.mu.Lock()
+	defer s.mu.Unlock()
+	if int(old) == s.gen {
+		return nil, api.ErrValueNotChanged
+	}
+	return &api.SecretValue{Value: s.val(name), Version: api.SecretVersion(s.gen)}, nil
+}
+
+type sixKinds struct {
+	A string       `setec:"a"`
+	B []byte       `setec:"b"`
+	S setec.Secret `setec:"s"`
+	N int          `setec:"n,json"`
+	V Bin          `setec:"v"`
+	P *Bin         `setec:"w"`
+	U string
+}
+
+// olderFields: one struct value, parsed more than once (by ParseFields and by NewStore(Structs)), with
+// rotations of the service in between, populated through whichever Fields value the caller holds - the
+// newest or an older one. Every step that populates must leave every tagged field at the current value.
+func olderFields(rep *report.Report, depth int) {
+	sec := rep.Add(&report.Section{Name: fmt.Sprintf("histories-of-parse-apply-rotate-depth%d", depth), Engine: "seqx", Exhaustive: true, Extra: map[string]int64{},
+		Rule: "every sequence up to the depth bound over {ParseFields (at most two Fields values are kept), Apply through the first Fields, Apply through the second Fields, rotate every secret on the service and Refresh, NewStore with the struct in Structs} on one struct value with string, []byte, Secret, ,json int, Bin (value with pointer-receiver UnmarshalBinary), *Bin and an untagged field, starting with the pointer field {nil, preset}; after every Apply and every NewStore(Structs) each tagged field must hold the service's current value and the untagged field its sentinel; histories are never merged; non-trivial = histories whose last step populates after a rotation or a second parse",
+		Bound: fmt.Sprintf("depth %d, 5 operations, 2 initial states", depth)})
+	alpha := []string{"parse", "apply1", "apply2", "rotate", "newstore"}
+	names := []string{"a", "b", "s", "n", "v", "w"}
+	var rec func(hist []string, preset bool)
+	type staleCase struct {
+		hist []string
+		msg  string
+	}
+	shortest := map[bool]staleCase{}
+	nstale := 0
+	run := func(hist []string, preset bool) (ok bool) {
+		sv := &rotSvc{gen: 1}
+		st, err := setec.NewStore(context.Background(), setec.StoreConfig{Client: sv, Secrets: names, PollInterval: -1, Logf: func(string, ...any) {}})
+		if err != nil {
+			panic(err)
+		}
+		stores := []*setec.Store{st}
+		defer func() {
+			for _, s := range stores {
+				s.Close()
+			}
+		}()
+		var v sixKinds
+		v.U = "sentinel"
+		if preset {
+			v.P = &Bin{}
+		}
+		var fs []*setec.Fields
+		desc := fmt.Sprintf("pointer field preset=%v, history %v", preset, hist)
+		interesting := false
+		for i, op := range hist {
+			last := i == len(hist)-1
+			populated := false
+			switch op {
+			case "parse":
+				if len(fs) == 2 {
+					return false
+				}
+				f, err := setec.ParseFields(&v, "")
+				if err != nil {
+					rep.Violate(sec.Name, "older-fields/parse-error", desc+": "+err.Error(), nil)
+					return false
+				}
+				fs = append(fs, f)
+				interesting = interesting || len(fs) == 2
+			case "apply1", "apply2":
+				k := int(op[5] - '1')
+				if k >= len(fs) {
+					return false
+				}
+				if err := fs[k].Apply(context.Background(), st); err != nil {
+					rep.Violate(sec.Name, "older-fields/apply-error", desc+": "+err.Error(), nil)
+					return false
+				}
+				populated = true
+			case "rotate":
+				sv.mu.Lock()
+				sv.gen++
+				sv.mu.Unlock()
+				if err := st.Refresh(context.Background()); err != nil {
+					panic(err)
+				}
+				interesting = true
+			case "newstore":
+				st3, err := setec.NewStore(context.Background(), setec.StoreConfig{Client: sv, Structs: []setec.Struct{{Value: &v}}, PollInterval: -1, Logf: func(string, ...any) {}})
+				if err != nil {
+					rep.Violate(sec.Name, "older-fields/newstore-error", desc+": "+err.Error(), nil)
+					return false
+				}
+				stores = append(stores, st3)
+				populated = true
+				interesting = interesting || len(fs) > 0
+			}
+			if !last || !populated {
+				continue
+			}
+			sec.Evaluations++
+			if interesting {
+				sec.Nontrivial++
+			}
+			want := func(n string) string { return string(sv.val(n)) }
+			var got []string
+			if v.A != want("a") {
+				got = append(got, fmt.Sprintf("A=%q want %q", v.A, want("a")))
+			}
+			if string(v.B) != want("b") {
+				got = append(got, fmt.Sprintf("B=%q want %q", v.B, want("b")))
+			}
+			if v.S == nil || string(v.S.Get()) != want("s") {
+				got = append(got, "handle S does not serve "+want("s"))
+			}
+			if fmt.Sprint(v.N) != want("n") {
+				got = append(got, fmt.Sprintf("N=%d want %s", v.N, want("n")))
+			}
+			if string(v.V.Got) != want("v") {
+				got = append(got, fmt.Sprintf("V (Bin) holds %q want %q", v.V.Got, want("v")))
+			}
+			if v.P == nil || string(v.P.Got) != want("w") {
+				h := "<nil>"
+				if v.P != nil {
+					h = string(v.P.Got)
+				}
+				got = append(got, fmt.Sprintf("P (*Bin) holds %q want %q", h, want("w")))
+			}
+			if v.U != "sentinel" {
+				got = append(got, "untagged field changed")
+			}
+			if len(got) > 0 {
+				// one report per initial state: the shortest failing history
+				if old, ok := shortest[preset]; !ok || len(hist) < len(old.hist) {
+					shortest[preset] = staleCase{append([]string{}, hist...), desc + ": after the last step (which reported success): " + strings.Join(got, "; ")}
+				}
+				nstale++
+			}
+		}
+		return true
+	}
+	rec = func(hist []string, preset bool) {
+		if len(hist) > 0 && !run(hist, preset) {
+			return // not a valid history (nor are its extensions)
+		}
+		sec.States++
+		if len(hist) == depth {
+			return
+		}
+		for _, op := range alpha {
+			rec(append(append([]string{}, hist...), op), preset)
+		}
+	}
+	rec(nil, false)
+	rec(nil, true)
+	for preset, c := range shortest {
+		rep.Violate(sec.Name, fmt.Sprintf("older-fields/stale-field: preset=%v %s", preset, strings.Join(c.hist, " ")), fmt.Sprintf("%s (%d histories leave a stale field)", c.msg, nstale), map[string]any{"history": c.hist, "preset": preset})
+	}
+	sec.Transitions = sec.States
+	sec.Samples = append(sec.Samples, "parse newstore rotate apply1", "parse parse apply1", "parse apply1 parse rotate apply1")
 }
